@@ -103,6 +103,8 @@ class RecordingProblem(Problem):
         i = len(self.log) + 1
         ph = PHASE[-1] if PHASE else stack_phase()
         ent = {"i": i, "y": y, "v": None, "ph": ph, "exc": None}
+        if getattr(self, "owner", None) is not None:
+            ent["o"] = self.owner          # which solver is acting (one problem object shared by several solvers, C12)
         self.log.append(ent)
         if ph == "g":
             self.ng += 1
@@ -266,6 +268,10 @@ def make_params(scn):
     """How the user fills in the public SolverParameters object is part of the scenario: constructor keywords,
     positional constructor arguments, or attribute assignment on a default-constructed object."""
     how = scn.get("params_how", "ctor")
+    mt = scn.get("m_type", "int")
+    if mt != "int":
+        # the density arrives as a numpy integer scalar (drawn with numpy, read from an array)
+        scn = dict(scn, m={"np.int64": np.int64, "np.int32": np.int32, "np.intp": np.intp, "np.uint8": np.uint8}[mt](scn["m"]))
     if how == "assign":
         p = SolverParameters()
         p.eps = scn["eps"]
